@@ -1544,6 +1544,14 @@ M('C04', 'ivcheck-warns', PK, "        if not constant_time.bytes_eq(iv[-2:], iv
 M('C04', 'keyblob-sha1-warns', FL, "            # of the key material block\n            raise PGPDecryptionError(\"Passphrase was incorrect!\")\n\n        if self.s2k.usage == 255", "            # of the key material block\n            warnings.warn(\"Passphrase may be incorrect!\")\n\n        if self.s2k.usage == 255", 'C04.4')
 M('C04', 'seipd-mdc-startswith', PK, "        if not constant_time.bytes_eq(bytes(pt[-22:]), _expected_mdcbytes):\n            raise", "        if not _expected_mdcbytes.startswith(bytes(pt[-22:-1])):\n            raise", 'C04.1')
 M('C04', 'keyblob-sha1-startswith', FL, "        if self.s2k.usage == 254 and not pt[-20:] == hashlib.new('sha1', pt[:-20]).digest():", "        if self.s2k.usage == 254 and not hashlib.new('sha1', pt[:-20]).digest().startswith(bytes(pt[-20:-16])):", 'C04.4')
+# ---- wave-4 additive twin (C04-ref11): class constants defined from each other + classmethod helper for the expected MDC trailer
+C04_MDC_CONSTS = "    _MDC_HEADER = b'\\xd3\\x14'\n    _MDC_DIGEST_LEN = 20\n    _MDC_TRAILER_LEN = len(_MDC_HEADER) + _MDC_DIGEST_LEN\n\n    @classmethod\n    def _expected_mdc_trailer(cls, hashed):\n        return cls._MDC_HEADER + hashlib.new('SHA1', hashed).digest()\n\n    def decrypt(self, key, alg):\n        # iv, ivl2, pt = super(IntegrityProtectedSKEDataV1, self).decrypt(key, alg)"
+T('C04', 'twin-seipd-w4-derived-constants-classmethod', PK, "        _expected_mdcbytes = b'\\xd3\\x14' + hashlib.new('SHA1', pt[:-20]).digest()\n        if not constant_time.bytes_eq(bytes(pt[-22:]), _expected_mdcbytes):",
+  "        _expected_mdcbytes = self._expected_mdc_trailer(pt[:-self._MDC_DIGEST_LEN])\n        if not constant_time.bytes_eq(bytes(pt[-self._MDC_TRAILER_LEN:]), _expected_mdcbytes):",
+  more=[(PK, "    def decrypt(self, key, alg):\n        # iv, ivl2, pt = super(IntegrityProtectedSKEDataV1, self).decrypt(key, alg)", C04_MDC_CONSTS)])
+M('C04', 'seipd-w4-derived-trailer-len-short', PK, "        _expected_mdcbytes = b'\\xd3\\x14' + hashlib.new('SHA1', pt[:-20]).digest()\n        if not constant_time.bytes_eq(bytes(pt[-22:]), _expected_mdcbytes):",
+  "        _expected_mdcbytes = self._expected_mdc_trailer(pt[:-self._MDC_DIGEST_LEN])\n        if not constant_time.bytes_eq(bytes(pt[-self._MDC_TRAILER_LEN:]), _expected_mdcbytes[-self._MDC_TRAILER_LEN:]):",
+  'C04.1', more=[(PK, "    def decrypt(self, key, alg):\n        # iv, ivl2, pt = super(IntegrityProtectedSKEDataV1, self).decrypt(key, alg)", C04_MDC_CONSTS.replace("len(_MDC_HEADER) + _MDC_DIGEST_LEN", "_MDC_DIGEST_LEN"))])
 
 # =============================================================================================== C03
 M('C03', 'checksum-65535', PK, "        m += self.int_to_bytes(sum(bytearray(symkey)) % 65536, 2)", "        m += self.int_to_bytes(sum(bytearray(symkey)) % 65535, 2)", 'C03.1')
